@@ -178,6 +178,17 @@ func (r *run) executeEdge() {
 	r.expectReturn("R4", []string{resP}, "secondary fails, primary answers around the threshold edge")
 }
 
+func (r *run) elapsedAtReturn() time.Duration {
+	r.mu.Lock()
+	defer r.mu.Unlock()
+	i, ok := r.first["return"]
+	j, ok2 := r.first["call.start"]
+	if !ok || !ok2 {
+		return 0
+	}
+	return r.evs[i].t - r.evs[j].t
+}
+
 func (r *run) callStart() time.Duration {
 	r.mu.Lock()
 	defer r.mu.Unlock()
@@ -406,6 +417,11 @@ func (r *run) judge() []finding {
 
 	// the model expectation (R2..R6) found by the controller
 	reportMM := func() {
+		if lag := time.Duration(maxLagNs.Load()); (r.mm.Got == resNone && lag > time.Second) ||
+			(r.mm.Rule == "R2" && r.m.long && time.Duration(0) < r.thr && r.elapsedAtReturn() > r.thr/2) {
+			r.harnessProblem = fmt.Sprintf("machine too slow to judge (%s got %s, max scheduling lag %v)", r.mm.Rule, r.mm.Got, lag)
+			return
+		}
 		key := fmt.Sprintf("%s-%s-got-%s", r.mm.Rule, sb, r.mm.Got)
 		add(key, fmt.Sprintf("%s: expected %v, observed %s%s; case %s", ruleText[r.mm.Rule], r.mm.Allowed, r.mm.Got, noteText(r.mm.Note), r.c.class()))
 	}
@@ -422,7 +438,9 @@ func (r *run) judge() []finding {
 			reportMM()
 		}
 	}
-	if r.stall != "" {
+	if r.stall != "" && time.Duration(maxLagNs.Load()) > time.Second {
+		r.harnessProblem = "machine too slow to judge a bounded-progress expectation (" + r.stall + ")"
+	} else if r.stall != "" {
 		add("no-progress-"+r.stall, fmt.Sprintf("%s within %v (nominal < 1 ms resp. the %v threshold); case %s", r.stall, progressBound, r.thr, r.c.class()))
 	}
 
